@@ -2,11 +2,16 @@
 // (concurrent clients never see each other's answers, policies or identities).
 //
 // Campaign 1 drives the production message cloner and the pooled constructors
-// with sequences of create / clone / dispose / mutate / construct operations and
-// the Lean ownership model with the same operations.  Campaign 2 runs
-// concurrent client streams through the full middleware stack with the
-// production cloner and caches and compares every response with the response
-// the same request gets when it is processed alone.
+// with sequences of create / clone / dispose / mutate / append / construct
+// operations and the Lean ownership model with the same operations.  The
+// backing array of every slice is an object of its own, so that messages whose
+// slices have spare capacity, were emptied in place or are empty but allocated,
+// and appends by the holders of clones (Msg.SetEdns0, ecscache.setECS,
+// normalize), are part of the histories.  Campaign 2 runs client streams
+// through the full middleware stack with the production cloner and caches,
+// concurrently and as a single-goroutine schedule in which responses stay in
+// use while further requests are served, and compares every response with the
+// response the same request gets when it is processed alone.
 package main
 
 import (
@@ -14,9 +19,11 @@ import (
 	"math/rand/v2"
 	"net"
 	"net/netip"
+	"os"
 	"reflect"
 	"runtime"
 	"runtime/debug"
+	"sort"
 	"strings"
 	"time"
 
@@ -37,15 +44,47 @@ type op struct {
 	Wire bool   `json:"wire,omitempty"`
 	// T selects a fixed template message instead of a generated one.
 	T int `json:"t,omitempty"`
+	// Spare reshapes the slices of a new message: spare capacity, elements
+	// removed in place, empty but allocated.
+	Spare bool `json:"spare,omitempty"`
 }
 
 func (o op) String() string {
-	return fmt.Sprintf("%s(%d,%d,%d,%d,%v,%d)", o.Kind, o.A, o.B, o.C, o.Seed, o.Wire, o.T)
+	return fmt.Sprintf("%s(%d,%d,%d,%d,%v,%d,%v)", o.Kind, o.A, o.B, o.C, o.Seed, o.Wire, o.T, o.Spare)
 }
 
 type liveMsg struct {
 	msg  *dns.Msg
 	snap string
+	// Memory reachable from msg (up to the capacity of the slices, and up to
+	// their length), as of the last time the message was the target of an
+	// operation or was seen to have changed.
+	reach, own []region
+	fresh      bool
+}
+
+// mview is what one live message looks like after a step.
+type mview struct {
+	objs []fobj
+	dump string
+	snap string
+}
+
+func viewOf(m *dns.Msg) (v mview) {
+	v.objs = flatten(m)
+	v.dump = showObjs(v.objs)
+	str := func() (s string) {
+		defer func() {
+			if p := recover(); p != nil {
+				s = fmt.Sprintf("panic in String: %v", p)
+			}
+		}()
+
+		return noNil(m.String())
+	}()
+	v.snap = str + "#" + v.dump
+
+	return v
 }
 
 // step is what one op contributed: the model lines, and what the real code
@@ -55,6 +94,8 @@ type step struct {
 	lines []string
 	flags string
 	rest  string
+	// mask marks the flags that are not compared: those of backing arrays.
+	mask []bool
 }
 
 type finding struct{ sig, what string }
@@ -72,91 +113,100 @@ type caseRun struct {
 	maxLive  int
 }
 
-func snapshot(m *dns.Msg) (s string) {
-	defer func() {
-		if v := recover(); v != nil {
-			s = fmt.Sprintf("panic in String: %v", v)
-		}
-	}()
-
-	return noNil(m.String()) + "#" + showObjs(flatten(m))
-}
+func snapshot(m *dns.Msg) (s string) { return viewOf(m).snap }
 
 func (c *caseRun) violate(sig, what string) { c.viols = append(c.viols, finding{sig, what}) }
 
 // markSeen returns the recycle flags of objs and remembers their storage.
-func (c *caseRun) markSeen(objs []fobj) string {
+// Which backing array a struct out of a pool brings along is not compared.
+func (c *caseRun) markSeen(objs []fobj) (flags string, mask []bool) {
 	var sb strings.Builder
 	for _, o := range objs {
-		if o.addr != 0 && c.seen[o.addr] {
+		switch {
+		case isArrKind(o.kind):
+			sb.WriteByte('.')
+		case o.addr != 0 && c.seen[o.addr]:
 			sb.WriteByte('R')
 			c.recycled++
-		} else {
+		default:
 			sb.WriteByte('F')
 		}
-		if o.addr != 0 {
+		mask = append(mask, isArrKind(o.kind))
+		if o.addr != 0 && !isArrKind(o.kind) {
 			c.seen[o.addr] = true
 		}
 	}
 
-	return sb.String()
+	return sb.String(), mask
 }
 
-// realRest renders "<alias> <dump>" of the real state.
-func (c *caseRun) realRest() string {
-	type iv struct{ lo, hi uintptr }
-	var ivs []iv
+// realRest renders "<alias><capalias> <dump>" of the real state: whether two
+// live objects overlap in the bytes they use, and whether objects of two
+// different live messages overlap in the bytes they can reach (spare capacity
+// included).
+func (c *caseRun) realRest(vs *[nHandles]*mview) string {
+	type iv struct {
+		lo, hi uintptr
+		h      int
+	}
+	var use, reach []iv
 	var parts []string
-	for h, l := range c.lives {
-		if l == nil {
+	for h, v := range vs {
+		if v == nil {
 			continue
 		}
-		objs := flatten(l.msg)
-		parts = append(parts, fmt.Sprintf("%d=%s", h, showObjs(objs)))
-		for _, o := range objs {
-			if len(o.vals) == 0 || o.addr == 0 {
-				continue
+		parts = append(parts, fmt.Sprintf("%d=%s", h, v.dump))
+		for _, o := range v.objs {
+			if lo, hi := o.use(); hi > lo && len(o.vals) > 0 {
+				use = append(use, iv{lo, hi, h})
 			}
-			n := uintptr(1)
-			if o.kind == kBuf {
-				n = uintptr(len(o.vals))
+			if lo, hi := o.reach(); hi > lo {
+				reach = append(reach, iv{lo, hi, h})
 			}
-			ivs = append(ivs, iv{o.addr, o.addr + n})
 		}
 	}
-	alias := "0"
-	for i := range ivs {
-		for j := i + 1; j < len(ivs); j++ {
-			if ivs[i].lo < ivs[j].hi && ivs[j].lo < ivs[i].hi {
-				alias = "1"
+	alias, capAlias := "0", "0"
+	sort.Slice(use, func(i, j int) bool { return use[i].lo < use[j].lo })
+	for i := range use {
+		if i+1 < len(use) && use[i+1].lo < use[i].hi {
+			alias = "1"
+		}
+	}
+	sort.Slice(reach, func(i, j int) bool { return reach[i].lo < reach[j].lo })
+	for i := range reach {
+		for j := i + 1; j < len(reach) && reach[j].lo < reach[i].hi; j++ {
+			if reach[i].h != reach[j].h {
+				capAlias = "1"
 			}
 		}
 	}
 
-	return alias + " " + strings.Join(parts, ";")
+	return alias + capAlias + " " + strings.Join(parts, ";")
 }
 
 // oracle checks, without the model, that every live message other than the
 // target still is what it was, and that live messages do not share storage.
-func (c *caseRun) oracle(o op, target int) {
+func (c *caseRun) oracle(o op, target int, vs *[nHandles]*mview) {
 	n := 0
-	var regs [nHandles][]region
 	for h, l := range c.lives {
 		if l == nil {
 			continue
 		}
 		n++
+		changed := h == target || !l.fresh
 		if h != target {
-			if s := snapshot(l.msg); s != l.snap {
+			if s := vs[h].snap; s != l.snap {
 				c.violate("live-message-altered", fmt.Sprintf("after %s message %d changed from %q to %q", o, h, l.snap, s))
 				l.snap = s
+				changed = true
 			}
 		}
-		regions(reflect.ValueOf(l.msg), false, "m", &regs[h])
-		var own []region
-		regions(reflect.ValueOf(l.msg), true, "m", &own)
-		if w := overlap(own, nil, true); w != "" {
-			c.violate("message-parts-share-storage", fmt.Sprintf("after %s inside message %d: %s", o, h, w))
+		if changed {
+			l.reach, l.own, l.fresh = l.reach[:0], l.own[:0], true
+			regions(reflect.ValueOf(l.msg), nil, &l.reach, &l.own)
+			if w := overlap(l.own, nil, true); w != "" {
+				c.violate("message-parts-share-storage", fmt.Sprintf("after %s inside message %d: %s", o, h, w))
+			}
 		}
 	}
 	c.maxLive = max(c.maxLive, n)
@@ -165,7 +215,7 @@ func (c *caseRun) oracle(o op, target int) {
 			if c.lives[a] == nil || c.lives[b] == nil {
 				continue
 			}
-			if w := overlap(regs[a], regs[b], false); w != "" {
+			if w := overlap(c.lives[a].reach, c.lives[b].reach, false); w != "" {
 				c.violate("live-messages-share-storage", fmt.Sprintf("after %s messages %d and %d: %s", o, a, b, w))
 			}
 		}
@@ -249,11 +299,20 @@ func (c *caseRun) apply(o op) {
 		} else {
 			c.cnt.n["new.direct"]++
 		}
+		if o.Spare {
+			respare(rand.New(rand.NewPCG(o.Seed, 2)), reflect.ValueOf(m), c.cnt)
+			c.cnt.n["new.respared"]++
+		}
 		objs := flatten(m)
+		if !specOK(objs) {
+			c.cnt.n["new.arrays-overlap(skipped)"]++
+
+			return
+		}
 		c.markSeen(objs)
 		st.lines = []string{newLine(o.A, objs)}
 		st.flags = "-"
-		c.lives[o.A] = &liveMsg{msg: m, snap: snapshot(m)}
+		c.lives[o.A] = &liveMsg{msg: m}
 		c.keep = append(c.keep, m)
 		target = o.A
 	case "clone":
@@ -264,10 +323,10 @@ func (c *caseRun) apply(o op) {
 		cl := c.cl.Clone(src.msg)
 		c.keep = append(c.keep, cl)
 		st.lines = []string{fmt.Sprintf("clone %d %d", o.A, o.B)}
-		st.flags = c.markSeen(flatten(cl))
-		c.lives[o.B] = &liveMsg{msg: cl, snap: snapshot(cl)}
-		if c.lives[o.B].snap != src.snap {
-			c.violate("clone-differs-from-original", fmt.Sprintf("%s: original %q clone %q", o, src.snap, c.lives[o.B].snap))
+		st.flags, st.mask = c.markSeen(flatten(cl))
+		c.lives[o.B] = &liveMsg{msg: cl}
+		if cs := snapshot(cl); cs != src.snap {
+			c.violate("clone-differs-from-original", fmt.Sprintf("%s: original %q clone %q", o, src.snap, cs))
 		}
 		c.cnt.n["op.clone"]++
 		target = o.B
@@ -296,7 +355,6 @@ func (c *caseRun) apply(o op) {
 		after := flatten(l.msg)
 		st.lines = []string{fmt.Sprintf("poke %d %d %d %d", o.A, i, j, after[i].vals[j])}
 		st.flags = "-"
-		l.snap = snapshot(l.msg)
 		c.cnt.n["op.poke"]++
 		target = o.A
 	case "scribble":
@@ -311,8 +369,67 @@ func (c *caseRun) apply(o op) {
 			}
 		}
 		st.flags = strings.Repeat("-", len(st.lines))
-		l.snap = snapshot(l.msg)
 		c.cnt.n["op.scribble"]++
+		target = o.A
+	case "grow":
+		// The holder of message A appends to one of its slices, as
+		// Msg.SetEdns0, ecscache.setECS, normalize and the filters do: in
+		// place when the slice has spare capacity.
+		l := c.lives[o.A]
+		if l == nil {
+			return
+		}
+		before := flatten(l.msg)
+		i := pickGrowable(before, o.B)
+		if i < 0 {
+			return
+		}
+		if !growOK(before, i) {
+			// The next cell is in use by a sibling (address hints that are
+			// sub-slices of one array): the holder overwrites its own
+			// message, which is not the cloner's doing.
+			c.cnt.n["grow.skipped(cell-used-by-sibling)"]++
+
+			return
+		}
+		inPlace := len(before[i].vals) < before[i].cp
+		before[i].grow(o.Seed)
+		after := flatten(l.msg)
+		old := map[objID]bool{}
+		for _, ob := range before {
+			old[ob.id] = true
+		}
+		j := -1
+		for k, ob := range after {
+			if ob.id == before[i].id {
+				j = k
+			}
+		}
+		st.lines = []string{fmt.Sprintf("grow %d %d %d %d", o.A, i, after[j].vals[len(after[j].vals)-1], after[j].cp)}
+		st.flags, st.mask = "-", []bool{false}
+		for k, ob := range after {
+			if old[ob.id] {
+				continue
+			}
+			line := fmt.Sprintf("ins %d %d 0 %d", o.A, k, ob.kind)
+			for _, v := range ob.vals {
+				line += fmt.Sprintf(" %d", v)
+			}
+			st.lines = append(st.lines, line)
+			st.flags += "F"
+			st.mask = append(st.mask, isArrKind(ob.kind))
+		}
+		for _, ob := range after {
+			if !old[ob.id] && ob.addr != 0 && !isArrKind(ob.kind) {
+				c.seen[ob.addr] = true
+			}
+		}
+		c.cnt.n[fmt.Sprintf("grow.kind=%d", before[i].kind)]++
+		if inPlace {
+			c.cnt.n["grow.in-place"]++
+		} else {
+			c.cnt.n["grow.moved"]++
+		}
 		target = o.A
 	case "construct":
 		if c.lives[o.A] != nil {
@@ -325,8 +442,10 @@ func (c *caseRun) apply(o op) {
 		// The model is told what a constructor without history makes.
 		wobjs := flatten(want)
 		for _, ob := range wobjs {
+			// The message and a SOA are not taken from the pools, and so are
+			// the arrays of the sections.
 			use := 1
-			if ob.kind == kMsg || ob.kind == kSOA {
+			if ob.kind == kMsg || ob.kind == kSOA || (ob.kind >= kArrQuestion && ob.kind <= kArrExtra) {
 				use = 0
 			}
 			line := fmt.Sprintf("make %d %d %d", o.A, use, ob.kind)
@@ -335,19 +454,29 @@ func (c *caseRun) apply(o op) {
 			}
 			st.lines = append(st.lines, line)
 		}
-		st.flags = c.markSeen(flatten(resp))
-		c.lives[o.A] = &liveMsg{msg: resp, snap: snapshot(resp)}
-		if ws := snapshot(want); ws != c.lives[o.A].snap {
+		st.flags, st.mask = c.markSeen(flatten(resp))
+		c.lives[o.A] = &liveMsg{msg: resp}
+		if ws, rs := snapshot(want), snapshot(resp); ws != rs {
 			c.violate("constructed-response-depends-on-pool-history", fmt.Sprintf("%s %s: with empty pools %q, with this history %q",
-				o, what, ws, c.lives[o.A].snap))
+				o, what, ws, rs))
 		}
 		target = o.A
 	default:
 		return
 	}
-	st.rest = c.realRest()
+	var vs [nHandles]*mview
+	for h, l := range c.lives {
+		if l != nil {
+			v := viewOf(l.msg)
+			vs[h] = &v
+			if h == target {
+				l.snap = v.snap
+			}
+		}
+	}
+	st.rest = c.realRest(&vs)
 	c.steps = append(c.steps, st)
-	c.oracle(o, target)
+	c.oracle(o, target, &vs)
 }
 
 func runOps(ops []op, cnt *counters) *caseRun {
@@ -363,7 +492,13 @@ func runOps(ops []op, cnt *counters) *caseRun {
 func compare(m *hlib.Model, c *caseRun) (diffs []string) {
 	lines := []string{"reset"}
 	for _, s := range c.steps {
-		lines = append(lines, s.lines...)
+		// Only the state after the last line of a step is compared.
+		for i, l := range s.lines {
+			if i < len(s.lines)-1 {
+				l = "q " + l
+			}
+			lines = append(lines, l)
+		}
 	}
 	ans := m.Batch(lines)[1:]
 	k := 0
@@ -375,8 +510,27 @@ func compare(m *hlib.Model, c *caseRun) (diffs []string) {
 			rest = r
 			k++
 		}
-		if flags != s.flags {
-			diffs = append(diffs, fmt.Sprintf("%s: recycle flags: model %s, implementation %s", s.op, flags, s.flags))
+		if len(s.mask) == len(flags) {
+			b := []byte(flags)
+			for i, hide := range s.mask {
+				if hide {
+					b[i] = '.'
+				}
+			}
+			flags = string(b)
+		}
+		want := s.flags
+		if len(s.mask) == len(want) {
+			b := []byte(want)
+			for i, hide := range s.mask {
+				if hide {
+					b[i] = '.'
+				}
+			}
+			want = string(b)
+		}
+		if flags != want {
+			diffs = append(diffs, fmt.Sprintf("%s: recycle flags: model %s, implementation %s", s.op, flags, want))
 		}
 		if rest != s.rest {
 			diffs = append(diffs, fmt.Sprintf("%s: state: model %q, implementation %q", s.op, rest, s.rest))
@@ -386,22 +540,120 @@ func compare(m *hlib.Model, c *caseRun) (diffs []string) {
 	return diffs
 }
 
+// pickGrowable returns the index of the slice that selector sel names: 1000+k
+// is the first backing array of kind k, anything else counts through the
+// slices of the message.
+func pickGrowable(objs []fobj, sel int) int {
+	var idx []int
+	for i, o := range objs {
+		if o.grow == nil {
+			continue
+		}
+		if sel >= 1000 && o.kind == sel-1000 {
+			return i
+		}
+		idx = append(idx, i)
+	}
+	if sel >= 1000 || len(idx) == 0 {
+		return -1
+	}
+
+	return idx[sel%len(idx)]
+}
+
+// growOK reports whether appending in place to object i leaves the cells in
+// use by the other objects of the same message alone.
+func growOK(objs []fobj, i int) bool {
+	o := objs[i]
+	if len(o.vals) >= o.cp {
+		return true
+	}
+	_, hi := o.use()
+	if len(o.vals) == 0 {
+		hi = o.addr
+	}
+	lo, hi := hi, hi+o.esz
+	for j, p := range objs {
+		if j == i || len(p.vals) == 0 {
+			continue
+		}
+		if a, b := p.use(); a < hi && lo < b {
+			return false
+		}
+	}
+
+	return true
+}
+
+// specOK reports whether a foreign message is well formed in the sense of the
+// model: the backing arrays that Dispose would hand to the pools do not
+// overlap (the address buffers of the hints, which are handed over only with a
+// capacity of exactly 16, are checked by the model itself).
+func specOK(objs []fobj) bool {
+	type iv struct{ lo, hi uintptr }
+	var ivs []iv
+	for _, o := range objs {
+		if isArrKind(o.kind) && o.cp > 0 {
+			lo, hi := o.reach()
+			ivs = append(ivs, iv{lo, hi})
+		}
+	}
+	sort.Slice(ivs, func(i, j int) bool { return ivs[i].lo < ivs[j].lo })
+	for i := 1; i < len(ivs); i++ {
+		if ivs[i].lo < ivs[i-1].hi {
+			return false
+		}
+	}
+
+	return true
+}
+
 func genOps(rng *rand.Rand) (ops []op) {
 	n := 8 + rng.IntN(30)
 	hmax := 2 + rng.IntN(5)
+	// Some cases work on few messages with many clones and appends, as a cache
+	// item and the responses made from it do.
+	cacheLike := rng.IntN(4) == 0
 	for i := 0; i < n; i++ {
 		h := rng.IntN(hmax)
-		switch k := rng.IntN(20); {
+		k := rng.IntN(24)
+		if cacheLike && i == 0 {
+			k = 0
+		}
+		switch {
 		case k < 4:
-			ops = append(ops, op{Kind: "new", A: h, Seed: rng.Uint64() >> 1, Wire: rng.IntN(3) > 0})
+			o := op{Kind: "new", A: h, Seed: rng.Uint64() >> 1, Wire: rng.IntN(3) > 0, Spare: rng.IntN(2) == 0}
+			if cacheLike {
+				o.A = 0
+				if rng.IntN(2) == 0 {
+					o.T = 5 + rng.IntN(3)
+				}
+			}
+			ops = append(ops, o)
 		case k < 10:
-			ops = append(ops, op{Kind: "clone", A: h, B: rng.IntN(hmax)})
+			o := op{Kind: "clone", A: h, B: rng.IntN(hmax)}
+			if cacheLike && rng.IntN(3) > 0 {
+				o.A = 0
+			}
+			ops = append(ops, o)
 		case k < 15:
-			ops = append(ops, op{Kind: "dispose", A: h})
+			o := op{Kind: "dispose", A: h}
+			if cacheLike && h == 0 && rng.IntN(4) > 0 {
+				o.A = 1 + rng.IntN(hmax-1)
+			}
+			ops = append(ops, o)
 		case k < 17:
 			ops = append(ops, op{Kind: "poke", A: h, B: rng.IntN(64), C: rng.IntN(16)})
 		case k < 18:
 			ops = append(ops, op{Kind: "scribble", A: h})
+		case k < 22:
+			// Mostly the sections and the options, which is where the
+			// middlewares append.
+			o := op{Kind: "grow", A: h, B: rng.IntN(64), Seed: rng.Uint64() >> 1}
+			if rng.IntN(2) == 0 {
+				o.B = 1000 + []int{kArrAnswer, kArrNs, kArrExtra, kArrExtra, kArrOption, kArrQuestion}[rng.IntN(6)]
+			}
+			ops = append(ops, o)
 		default:
 			ops = append(ops, op{Kind: "construct", A: h, B: rng.IntN(8), Seed: rng.Uint64() >> 1})
 		}
@@ -445,6 +697,32 @@ func template(t int) *dns.Msg {
 	case 4:
 		m.Extra = []dns.RR{&dns.OPT{Hdr: dns.RR_Header{Name: ".", Rrtype: dns.TypeOPT, Class: 4096, Ttl: 0x00010040},
 			Option: []dns.EDNS0{&dns.EDNS0_COOKIE{Code: dns.EDNS0COOKIE, Cookie: "0123456789abcdef"}}}}
+	case 5:
+		// What the ECS cache keeps: the OPT of the upstream's answer removed
+		// in place, so that the additional section is empty, not nil, and has
+		// its capacity.
+		m.Answer = []dns.RR{&dns.A{Hdr: dns.RR_Header{Name: "tmpl.example.", Rrtype: dns.TypeA, Class: 1, Ttl: 60}, A: net.IP{192, 0, 2, 5}}}
+		ex := []dns.RR{&dns.OPT{Hdr: dns.RR_Header{Name: ".", Rrtype: dns.TypeOPT, Class: 1232}}}
+		clear(ex)
+		m.Extra = ex[:0:1]
+	case 6:
+		// Every slice empty but allocated.
+		m.Question = make([]dns.Question, 0, 1)
+		m.Answer = make([]dns.RR, 0, 2)
+		m.Ns = make([]dns.RR, 0, 1)
+		m.Extra = make([]dns.RR, 0, 2)
+	case 7:
+		// Spare capacity behind the elements, and slices that are empty but
+		// allocated, one and two levels down.
+		m.Answer = append(make([]dns.RR, 0, 5), &dns.TXT{Hdr: dns.RR_Header{Name: "tmpl.example.", Rrtype: dns.TypeTXT, Class: 1, Ttl: 60},
+			Txt: append(make([]string, 0, 3), "t7")}, &dns.HTTPS{SVCB: dns.SVCB{Hdr: hdr, Priority: 1, Target: ".",
+			Value: append(make([]dns.SVCBKeyValue, 0, 4), &dns.SVCBAlpn{Alpn: make([]string, 0, 2)}, v4(1),
+				&dns.SVCBIPv6Hint{Hint: make([]net.IP, 0, 2)})}},
+			&dns.HTTPS{SVCB: dns.SVCB{Hdr: hdr, Priority: 2, Target: ".", Value: make([]dns.SVCBKeyValue, 0, 2)}},
+			&dns.TXT{Hdr: dns.RR_Header{Name: "tmpl.example.", Rrtype: dns.TypeTXT, Class: 1, Ttl: 61}, Txt: make([]string, 0, 2)})
+		m.Extra = append(make([]dns.RR, 0, 3), &dns.OPT{Hdr: dns.RR_Header{Name: ".", Rrtype: dns.TypeOPT, Class: 1232},
+			Option: make([]dns.EDNS0, 0, 2)}, &dns.OPT{Hdr: dns.RR_Header{Name: ".", Rrtype: dns.TypeOPT, Class: 1233},
+			Option: append(make([]dns.EDNS0, 0, 2), &dns.EDNS0_SUBNET{Code: dns.EDNS0SUBNET, Family: 1, Address: make(net.IP, 0, 4)})})
 	default:
 		m.Answer = []dns.RR{&dns.A{Hdr: dns.RR_Header{Name: "tmpl.example.", Rrtype: dns.TypeA, Class: 1, Ttl: 60}, A: net.IP{192, 0, 2, 1}},
 			&dns.HTTPS{SVCB: dns.SVCB{Hdr: hdr, Priority: 1, Target: ".", Value: []dns.SVCBKeyValue{v6(4)}}}}
@@ -468,6 +746,19 @@ func directedCases() (cases [][]op) {
 			{Kind: "construct", A: 2, B: int(seed % 8), Seed: seed}, {Kind: "dispose", A: 1},
 			{Kind: "construct", A: 3, B: int(seed%8) + 1, Seed: seed + 100}})
 	}
+	// A message whose slices are empty but allocated, or have spare capacity,
+	// is cloned for several clients; each appends to its copy (SetEdns0,
+	// setECS, a filter adding a record); one copy is released and its parts
+	// are reused for an unrelated message while the others are still in use.
+	for _, t := range []int{5, 6, 7} {
+		for _, arr := range []int{kArrExtra, kArrAnswer, kArrNs, kArrQuestion, kArrOption, kArrValue, kArrTxt, kArrAlpn} {
+			g := 1000 + arr
+			cases = append(cases, []op{{Kind: "new", A: 0, T: t}, {Kind: "clone", A: 0, B: 1}, {Kind: "clone", A: 0, B: 2},
+				{Kind: "grow", A: 1, B: g, Seed: 3}, {Kind: "grow", A: 2, B: g, Seed: 5}, {Kind: "clone", A: 0, B: 3},
+				{Kind: "dispose", A: 3}, {Kind: "new", A: 4, T: 4}, {Kind: "clone", A: 4, B: 5}, {Kind: "grow", A: 0, B: g, Seed: 7},
+				{Kind: "dispose", A: 1}, {Kind: "clone", A: 2, B: 6}, {Kind: "grow", A: 6, B: g, Seed: 9}})
+		}
+	}
 
 	return cases
 }
@@ -481,6 +772,9 @@ func smallScope() (cases [][]op) {
 			alpha = append(alpha, op{Kind: "new", A: h, T: t, Wire: true})
 		}
 	}
+	nStart := len(alpha)
+	alpha = append(alpha, op{Kind: "new", A: 0, T: 5}, op{Kind: "grow", A: 2, B: 1000 + kArrExtra, Seed: 3},
+		op{Kind: "grow", A: 3, B: 1000 + kArrExtra, Seed: 4})
 	alpha = append(alpha, op{Kind: "clone", A: 0, B: 2}, op{Kind: "clone", A: 1, B: 2}, op{Kind: "clone", A: 2, B: 3})
 	for h := 0; h < 4; h++ {
 		alpha = append(alpha, op{Kind: "dispose", A: h})
@@ -496,7 +790,7 @@ func smallScope() (cases [][]op) {
 			return
 		}
 		for i, a := range alpha {
-			if len(prefix) == 0 && i >= 8 {
+			if len(prefix) == 0 && i > nStart {
 				break
 			}
 			rec(append(prefix, a))
@@ -525,8 +819,8 @@ func clonerCampaign(o *hlib.Opts, r *hlib.Result, m *hlib.Model) {
 	cases := directedCases()
 	if o.Thorough() {
 		ex := smallScope()
-		r.Notes = append(r.Notes, fmt.Sprintf("small scope: all %d histories of length <= 4 over 18 operations on 5 template "+
-			"messages (new through Pack/Unpack, clone, dispose, construct, scribble) that start with a creation were "+
+		r.Notes = append(r.Notes, fmt.Sprintf("small scope: all %d histories of length <= 4 over 21 operations on 6 template "+
+			"messages (new through Pack/Unpack or with an emptied additional section, clone, dispose, append, construct, scribble) that start with a creation were "+
 			"enumerated; histories containing an inapplicable operation are skipped as duplicates of shorter ones", len(ex)))
 		cases = append(cases, ex...)
 	}
@@ -585,16 +879,26 @@ func min2(a, b int) int { return min(a, b) }
 func main() {
 	o := hlib.ParseFlags()
 	r := hlib.NewResult("C07", o)
-	r.Rule = "cloner: random and directed histories of create (direct or through Pack/Unpack) / Clone / Dispose / mutate / " +
+	r.Rule = "cloner: random and directed histories of create (direct or through Pack/Unpack; slices with spare capacity, " +
+		"emptied in place, empty but allocated) / Clone / Dispose / mutate / append to a slice of a live message / " +
 		"pooled-constructor calls on the production Cloner, compared op by op with the Lean ownership model (content of every " +
-		"live message, which objects were recycled, aliasing) and checked by an independent oracle (snapshots of all live " +
-		"messages, reflection walk for shared storage, constructor output vs a constructor with empty pools); a case is " +
-		"non-trivial when at least one object came out of a pool while two messages were live; distinct = distinct op logs. " +
-		"stack: concurrent client streams with distinct profiles through dnssvc.NewHandlers with the production cloner and " +
-		"caches, each response compared with the response of the same request processed alone"
+		"live message including the cells of every backing array, which objects were recycled, aliasing of cells in use, overlap " +
+		"of reachable cells between live messages) and checked by an independent oracle (snapshots of all live " +
+		"messages, reflection walk for storage shared up to the capacity of every slice, constructor output vs a constructor with " +
+		"empty pools); a case is non-trivial when at least one object came out of a pool while two messages were live; distinct = " +
+		"distinct op logs. stack: client streams with distinct profiles and client subnets through dnssvc.NewHandlers and the UDP " +
+		"writer's normalize with the production cloner and caches, concurrently and with responses held in use while further " +
+		"requests are served; each response compared with the response of the same request processed alone, with what it was " +
+		"when the handler returned it, and its client subnet with the one the request sent"
 	m := hlib.StartModel(o.Model, "C07")
 	defer m.Close()
-	clonerCampaign(o, r, m)
-	stackCampaign(o, r)
+	// C07_ONLY=cloner|stack restricts a development run to one campaign.
+	only := os.Getenv("C07_ONLY")
+	if only != "stack" {
+		clonerCampaign(o, r, m)
+	}
+	if only != "cloner" {
+		stackCampaign(o, r)
+	}
 	r.Finish()
 }
